@@ -553,8 +553,8 @@ func (t *tomlDoc) section(path ...string) {
 	}
 	fmt.Fprintf(&t.b, "\n[%s]\n", strings.Join(qs, "."))
 }
-func (t *tomlDoc) str(k, v string) { fmt.Fprintf(&t.b, "%s = %s\n", tomlQuote(k), tomlQuote(v)) }
-func (t *tomlDoc) num(k string, v int64) { fmt.Fprintf(&t.b, "%s = %d\n", tomlQuote(k), v) }
+func (t *tomlDoc) str(k, v string)          { fmt.Fprintf(&t.b, "%s = %s\n", tomlQuote(k), tomlQuote(v)) }
+func (t *tomlDoc) num(k string, v int64)    { fmt.Fprintf(&t.b, "%s = %d\n", tomlQuote(k), v) }
 func (t *tomlDoc) boolean(k string, v bool) { fmt.Fprintf(&t.b, "%s = %v\n", tomlQuote(k), v) }
 func (t *tomlDoc) list(k string, vs []string) {
 	qs := make([]string, len(vs))
